@@ -28,7 +28,7 @@ Section Ops.
         /\ forall rest, run frag (emitted ++ rest) = run frag' rest.
   Proof.
     intros c keys w typ frag sofar Hk Hd Hw Hb Hlen.
-    destruct c as [p|p|p]; simpl chunk_bytes in *; unfold feed.
+    destruct c as [p|p|p|p]; simpl chunk_bytes in *; unfold feed.
     - destruct ((2 * wc_buf cfg <? N.of_nat (length p)) && wc_server cfg) eqn:Big.
       + apply andb_true_iff in Big as [_ Hs].
         destruct (flush_nonfinal_decode ok infl cfg Hcap keys w typ frag sofar p Hk Hd Hw) as [fr [keys' [E [K [W D]]]]].
@@ -54,6 +54,9 @@ Section Ops.
         split; [reflexivity|]. split; [exact K2|]. split; [exact W2|]. split; [simpl; lia|].
         intro rest. rewrite <- app_assoc. unfold run. rewrite D. apply D2.
       + exists em, keys', w', frag'. split; [reflexivity|]. split; [exact K|]. split; [exact W|]. split; [exact B|exact D].
+    - destruct (copy_loop_decode ok infl cfg Hcap (S (length p)) keys w p [] typ frag sofar Hk Hd Hw ltac:(lia) Hlen Hb)
+        as [em [keys' [w' [frag' [E R]]]]].
+      exists em, keys', w', frag'. split; [exact E|exact R].
   Qed.
 
   Lemma feed_all_decode : forall cs keys w wire0 typ frag sofar,
